@@ -181,8 +181,20 @@ class Interp:
             return tuple(self.lift(x, st) for x in v)
         if isinstance(v, tuple):
             return SRec(type(v), {k: self.lift(getattr(v, k), st) for k in v._fields})
-        if isinstance(v, (list, dict)):
+        if isinstance(v, (list, dict, set)):
             k = id(v)
+            from .scan import shared_mutable_roots
+            hit = shared_mutable_roots().get(k)
+            if hit is not None:
+                # a module-/class-level container that package code mutates inside functions: what it holds when the
+                # function under contract is called is whatever an arbitrary call history left there, NOT its
+                # import-time content - refusing is the only sound answer the engine has (no symbolic dictionaries)
+                where, name, sites = hit
+                raise EngineError(f'shared mutable state: {where}.{name} is a module/class-level container mutated at '
+                                  f'{sites[0][0]}:{sites[0][2]} ({sites[0][1]}); the function reads or writes state that '
+                                  f'earlier calls may have left there (not a function of its arguments)')
+            if isinstance(v, set):
+                return v
             if k not in st.lifted:
                 if isinstance(v, list):
                     o = SList(items=[self.lift(x, st) for x in v], label=f'global@{k}')
